@@ -68,7 +68,19 @@ pub struct Case {
     /// the sink accepts at most this many bytes per `write` call
     #[serde(default)]
     pub short_write: Option<u16>,
+    /// the tree also holds a symbolic link whose target does not exist (`zz-stale.<ext>`, in the directory of file
+    /// `i % (n+1)`, the last index meaning the top): not a file, so nothing is served for it and the rest is unaffected
+    #[serde(default)]
+    pub dangling: Option<u8>,
     pub requests: Vec<(String, String)>,
+}
+
+/// where the dangling link of the case lies (directory below the served one, name)
+fn dangling_place(case: &Case) -> Option<(Vec<String>, String)> {
+    let k = case.dangling?;
+    let n = case.files.len();
+    let dirs = if (k as usize) % (n + 1) == n { vec![] } else { case.files[(k as usize) % (n + 1)].dirs.clone() };
+    Some((dirs, format!("zz-stale.{}", EXTS[(k as usize / 16) % EXTS.len()].0)))
 }
 
 impl FileDesc {
@@ -280,20 +292,26 @@ impl Property for C19 {
         let mount = vec(prop_oneof![Just("static".to_string()), Just("a".to_string()), Just("pub".to_string())], 0..=2);
         let omit = prop_oneof![3 => Just(vec![]), 2 => Just(vec![0u8]), 1 => Just(vec![0u8, 1]), 1 => Just(vec![2u8, 0, 1]), 1 => Just(vec![1u8])];
         let recipe = (0u8..12, any::<prop::sample::Index>(), 0u8..8, 0u8..9).prop_map(|(kind, pick, variant, method)| ReqRecipe { kind, pick: pick.index(1 << 16), variant, method });
-        let extras = (prop::bool::weighted(0.15), prop::option::weighted(0.2, any::<u16>()), prop::option::weighted(0.2, prop_oneof![1u16..=32, 33u16..=700]));
+        let extras = (prop::bool::weighted(0.15), prop::option::weighted(0.2, any::<u16>()), prop::option::weighted(0.2, prop_oneof![1u16..=32, 33u16..=700]), prop::option::weighted(0.12, any::<u8>()));
         (mount, omit, vec(file, 0..=12), any::<bool>(), vec(recipe, 1..=30), prop::bool::weighted(0.3), extras)
-            .prop_map(|(mount, omit, files, outside, recipes, dotted, (via_symlink, rewrite_after_build, short_write))| {
+            .prop_map(|(mount, omit, files, outside, recipes, dotted, (via_symlink, rewrite_after_build, short_write, dangling))| {
                 // keep the case inside the domain by construction: drop files that clash as paths
                 let mut kept: Vec<FileDesc> = Vec::new();
                 for f in files {
-                    let mut c = Case { mount: mount.clone(), omit: omit.clone(), files: kept.clone(), outside, dotted, via_symlink, rewrite_after_build, short_write, requests: vec![] };
+                    let mut c = Case { mount: mount.clone(), omit: omit.clone(), files: kept.clone(), outside, dotted, via_symlink, rewrite_after_build, short_write, dangling, requests: vec![] };
                     c.files.push(f.clone());
                     if in_domain_case(&c) {
                         kept.push(f);
                     }
                 }
-                let mut case = Case { mount, omit, files: kept, outside, dotted, via_symlink, rewrite_after_build, short_write, requests: vec![] };
+                let mut case = Case { mount, omit, files: kept, outside, dotted, via_symlink, rewrite_after_build, short_write, dangling, requests: vec![] };
                 case.requests = recipes.iter().map(|r| concretize(&case, r)).collect();
+                if let Some((dirs, name)) = dangling_place(&case) {
+                    let mut segs: Vec<String> = case.mount.clone();
+                    segs.extend(dirs);
+                    segs.push(name);
+                    case.requests.push(("GET".to_string(), format!("/{}", segs.join("/"))));
+                }
                 case
             })
             .boxed()
@@ -323,6 +341,15 @@ impl Property for C19 {
         }
         if case.outside {
             std::fs::write(root.join("outside.txt"), b"secret").expect("write outside");
+        }
+        if let Some((dirs, name)) = dangling_place(case) {
+            obs.label("dangling-symlink-in-tree");
+            let mut d = served.clone();
+            for x in &dirs {
+                d.push(x);
+            }
+            std::fs::create_dir_all(&d).expect("mkdir");
+            std::os::unix::fs::symlink("no-such-target", d.join(name)).expect("dangling symlink");
         }
         let omit: Vec<&'static str> = case.omit.iter().map(|i| OMITTABLE[*i as usize % 3]).collect();
         let route = leak(mount_lit(&case.mount));
